@@ -79,7 +79,7 @@ RULE = ("every data-format property x every format x a pool of values: for chara
         "completely. Observed: the attribute value after set_property or the error family; validate() verdict. "
         "Non-trivial: a set_property case whose value is non-empty. Distinct = distinct case.")
 EXHAUSTIVE = {"quick": True, "thorough": True}
-TRUSTED = ["whether an encoding name is known is asked of the runtime (codecs.lookup) and handed to the model", "Model/Lex.v (tokenizer) as in C01"]
+TRUSTED = ["whether a name is a text encoding the runtime knows is asked of the runtime (codecs.lookup succeeds and ''.encode(name) works) and handed to the model", "Model/Lex.v (tokenizer) as in C01"]
 ASSUMPTIONS = ["property names are passed lower-case, as Cid.add_data_format_row does"]
 
 FORMATS = ["delimited", "fixed", "excel", "ods", "csv"]
@@ -105,7 +105,7 @@ def spellings(cp):
 MALFORMED_CHARS = ["", " ", "  ", "ab", "'ab'", "'a", "a'", "((", "1 2", "1,", ",", ",,", "--", "-1", "1.5", "1e3", "0x", "0x110000", "1114112", "99999999999999999999", "tabb", "TAB",
                    "'\\x4'", "'\\q'", "'\\101'", "'\\0'", "'''a'''", "''", "\"\"", "01", "00", "0_9", "1_0", "'…'", "#", "a#", "\\", "'\\'", " 9", "9 ", " tab", "\t,", "0b1001", "0o11", "é", "ab c"]
 OTHER_VALUES = {
-    "encoding": ["utf-8", "UTF-8", "latin-1", "cp1252", "ascii", "iso-8859-15", "nope", "", "utf 8", "utf_8", "a\x00b", "idna", "rot13"],
+    "encoding": ["utf-8", "UTF-8", "latin-1", "cp1252", "ascii", "iso-8859-15", "nope", "", "utf 8", "utf_8", "a\x00b", "idna", "rot13", "hex", "base64", "zlib", "undefined", "utf-16", "punycode", "unicode_escape"],
     "header": ["0", "1", "17", " 3 ", "+2", "-1", "-0", "1.0", "x", "", "1_0", "0x1", "١", "1e2", " ", "00", "007"],
     "sheet": ["0", "1", "2", " 3 ", "+2", "-1", "x", "", "1.0", "1_0", "00", "01"],
     "quoting": ["all", "ALL", "All", "minimal", "Minimal", "none", "", " all", "nonnumeric"],
@@ -151,6 +151,7 @@ def coq_attr(name, c):
 def encoding_known(value):
     try:
         codecs.lookup(value)
+        "".encode(value)        # a codec that converts text to bytes ('rot13', 'hex', 'zlib' are codecs but no encodings)
         return True
     except Exception:  # noqa
         return False
